@@ -8,7 +8,7 @@ CHECKS = {
        "summary of its destroy sibling: header initialised (H1), every released slot re-acquired (H2), no retained "
        "alias / write / release through a bit-copied pointer on any path incl. error paths (H3), container copy "
        "helpers analysed by the same engine (H4). Decides structural necessary conditions of the property on all "
-       "paths; does not decide behavioural equivalence of copy and original.",
+       "paths; does not decide behavioural equivalence of copy and original. Also H5-state: fields that the library accumulates over an object's life are taken over by nodes the copy allocates.",
   note="trusted: clang-14 front end and mem2reg; tables of external release/pure functions in sa/copyflow.py; the "
        "borrowed-pointer table in sa/props/c19.py (each entry re-verified or reasoned)",
   technique="static analysis: typestate/ownership dataflow on LLVM IR with function-pointer slot resolution"),
@@ -53,7 +53,7 @@ CHECKS = {
        "hardening flags (O_EXCL, no O_TRUNC, AT_SYMLINK_NOFOLLOW, lsetxattr, !S_ISLNK before fchmodat); ordering in "
        "main (duplicate check and O_EXCL creation pass dominate re-opening passes; failed chdir never unpacks); "
        "get_path refuses '/', '.', '..'. Decides the structural confinement argument on all paths; does not decide that "
-       "the sort finds every duplicate, nor races with other processes.",
+       "the sort finds every duplicate, nor races with other processes. Also K2-sorttotal (no data-dependent shortcut in the sort unless a full adjacent scan), K2-walk (traversal reaches every directory), K12 table of unreviewed name-creating calls; K1-order is helper-transparent.",
   note="trusted: the table of mutating primitives and their path-argument positions in sa/props/c06.py; libc semantics of "
        "the flags",
   technique="static analysis: dominance (must-pass-through) + interprocedural source/sanitiser/sink provenance on LLVM IR"),
@@ -76,7 +76,7 @@ CHECKS = {
        "success edge of sqfs_writer_finish, cleanup unlinks; all mains: exit status 0 unreachable from any failure edge "
        "(branch-consistent reachability); submit failures propagate; single-owner block hand-over (no double free on "
        "error paths); truncated archive input is an error in the archive layer (T1/T2). Decides that every fault reaches "
-       "a decision on all paths; does not decide that the handling is right, nor exit 0 => fault-free bytes.",
+       "a decision on all paths; does not decide that the handling is right, nor exit 0 => fault-free bytes. Also E4 (error result overwritten round a loop), E5 (tri-state result collapsed to ==0), E6 (error edge returns a regular value), K1-cleanup init-unlinks and chdir-undone (path-sensitive).",
   note="trusted: tables of fallible libc functions / allocators in sa/errflow.py; one reasoned E1 exception",
   technique="static analysis: error-propagation / unused-result / null-check dataflow and must-pass-through rules on LLVM IR"),
  "C12": dict(
@@ -86,7 +86,7 @@ CHECKS = {
        "(loop-carried phi or fill-level field) advances by the result; every sqfs_istream_t consumer advances by an "
        "amount derived from what get_buffered_data delivered and tests its result; the archive layer treats end of "
        "input inside a record as an error and compares every read count with the requested size. Decides the retry/"
-       "advance structure on all paths = for all short-count/EINTR sequences; equality of outputs is value-level.",
+       "advance structure on all paths = for all short-count/EINTR sequences; equality of outputs is value-level. Count-returning chunk primitives hand the loop / exit / progress obligations to their callers.",
   note="trusted: POSIX semantics of short counts and EINTR; the list of raw transfer functions in sa/props/c12.py",
   technique="static analysis: who-may-call rule + loop/phi (SSA) analysis of transfer loops on LLVM IR"),
  "C05": dict(
@@ -98,7 +98,7 @@ CHECKS = {
        "the buffers' allocation sites. Plus directory-loop check on the link path, table windows from superblock fields, "
        "superblock sanity tests dominate success, allocation-size arithmetic. Decides absence of out-of-bounds WRITES "
        "at these sinks on all paths; does not decide out-of-bounds reads via string functions, loop termination in "
-       "general, or the codec libraries.",
+       "general, or the codec libraries. Also K8-dangling (freed pointer not left in caller-visible memory), growth prover for re-allocated buffers, K1-double (doubling loops start non-zero).",
   note="trusted: three reasoned exceptions in sa/props/c05.py; 'a pointer to struct T points to sizeof(T) bytes'",
   technique="static analysis: bounded-sink dataflow (linear forms + guard/provenance reasoning) on LLVM IR"),
  "C07": dict(
@@ -109,7 +109,7 @@ CHECKS = {
        "anchored parser units (three reasoned exceptions); codec wrappers re-enter their loop only on progress codes "
        "(no endless loop on corrupted compressed input); PAX 'already set' mask zeroed whenever the decoded header is "
        "wiped. Cleanup-after-failure and name canonicalisation are decided by C13/C18. Decides memory-safety sinks and "
-       "specific non-termination shapes; does not decide termination in general (hard-link cycles).",
+       "specific non-termination shapes; does not decide termination in general (hard-link cycles). Also K8-dangling, K1-progress (member stream never reports success with 0 bytes), K1-chase (hard-link resolution has a cycle exit), K1-okprogress (codec wrappers answer OK only after their transfer loop ran).",
   note="trusted: libtar limit constant 65536; codec return-code tables; three K6 exceptions in sa/props/c07.py",
   technique="static analysis: bounded-sink dataflow, dominance rules, finite branch evaluation over library return codes, typestate (mask/payload) on LLVM IR"),
  "C15": dict(
@@ -119,7 +119,7 @@ CHECKS = {
        "action), K1-trailer (flush finishes the codec stream, then the wrapped stream; sqfs2tar reports success only "
        "after that), K2-codec-table. The property as a whole (equality of decoded streams, concatenated members, "
        "truncation detection) is run-time behaviour of the codec libraries and is NOT decided; only these necessary "
-       "conditions are.",
+       "conditions are. Also K1-errnow (codec error not deferred), K1-finish (library still called when finishing without input), K1-truncated (EOF inside a member is an error), K1-end (END only on the library's say-so; zstd wrapper recorded as known finding), K1-okprogress.",
   note="trusted: API constants of the four codec libraries",
   technique="static analysis: exhaustive branch evaluation over enumerated return codes + dominance/constant rules on LLVM IR"),
  "C08": dict(
@@ -130,7 +130,7 @@ CHECKS = {
        "bytes+offset vs current fragment, or constant under a NULL test of the configuration on every incoming edge); "
        "typestate of proc->current_frag at every fragment hash-table query and lookup-error test after it; in-flight "
        "copy taken before submit and freed only where the block is written; fragment re-read cache coherence. Does not "
-       "decide that identical data DOES share storage, nor check_file_range_equal's arithmetic.",
+       "decide that identical data DOES share storage, nor check_file_range_equal's arithmetic. Also K13-truncate, K5-frag-report (failed read-back recorded before 'not equal'), K11-everyblock, K13-dedup-args length = accumulator of the size-summing loop.",
   note="trusted: memcmp / check_file_range_equal compare bytes faithfully",
   technique="static analysis: loop-exit and return classification, typestate and must-precede rules on LLVM IR"),
  "C02": dict(
@@ -140,7 +140,7 @@ CHECKS = {
        "relevant state written only on the submitting thread; K2 no environment query in the packers' closures except "
        "the documented ones, CPU count reaches only the worker count; comparators never order by address; both pool "
        "implementations fill all slots; in-flight copy before submit and fragment re-read cache coherence. Byte equality "
-       "with the serial build and done-list order (a run-time sortedness invariant) are NOT decided.",
+       "with the serial build and done-list order (a run-time sortedness invariant) are NOT decided. Also: K3 stateless workers (worker code stores only into the work item and codec-library structs); readdir accepted iff C11's A3 rules hold for the site.",
   note="trusted: allow-list of memory/codec functions; three documented environment inputs (each with its reason)",
   technique="static analysis: effect confinement over the slot-resolved call graph, who-may-write and must-precede rules on LLVM IR"),
  "C03": dict(
@@ -150,7 +150,7 @@ CHECKS = {
        "into on-disk fields on the writer path: range-proven, covered by a re-verified guard provider -- directory header "
        "run limits with the exact 256-entry bound and +-32767 inode delta, id count, name length, device number, "
        "timestamps -- or a reasoned exception), K13-padding (remainder by cfg->devblksize), K1-metablock (8 KiB limit, "
-       "uncompressed fallback). Sortedness, dense inode numbering, index placement, reference resolution: not decided.",
+       "uncompressed fallback). Sortedness, dense inode numbering, index placement, reference resolution: not decided. Also K13-truncate (dedup truncation point derived from the updated block list) and K11-everyblock (every completed block reaches the block writer).",
   note="trusted: the table of exceptions ('would need 2^32 entries in memory' class) in sa/k7.py",
   technique="static analysis: provenance-based range proofs (guards, clamps, tag-mediated guards, bit widths) and return-value classification on LLVM IR"),
  "C01": dict(
@@ -160,7 +160,7 @@ CHECKS = {
        "verified guard provider, or a reasoned exception), A1 tagged-union agreement (217 accesses to the inode union are "
        "under a tag test naming a type that owns the accessed member; make_extended/make_basic conversions pair the right "
        "members), K6-alloca (no input-sized stack allocation), K6-index (stores through caller-provided tables indexed by "
-       "a growing counter are bounded), K2-column (every non-uniform column of a constant keyword/handler table is read).",
+       "a growing counter are bounded), K2-column (every non-uniform column of a constant keyword/handler table is read). Also K14-cmp (all registered comparators / equality functions evaluated over 3^k orderings), K2-exact, K13-truncate, K11-everyblock; K7 imports facts implied by boolean helper answers.",
   note="trusted: exception tables in sa/k7.py and sa/props/c01.py, one reason per entry",
   technique="static analysis: provenance-based range proofs, tag-dominance of union member accesses, constant-table column liveness on LLVM IR"),
  "C04": dict(
@@ -170,7 +170,7 @@ CHECKS = {
        "layer (T1/T2); writer well-formedness: header checksum computed after the last header store and before the "
        "append, file data can return 0 only through padd_file(), sqfs2tar exits 0 only after end-of-archive blocks and "
        "flush succeeded, SQFS_ERROR_UNSUPPORTED is distinguished; K12-layer: the hard-link filter wraps the name-"
-       "rewriting iterator; K12-sparse: is_sparse_region answers 'data' only with a covering extent or no map.",
+       "rewriting iterator; K12-sparse: is_sparse_region answers 'data' only with a covering extent or no map. Also K7-strtrunc (strncpy limit vs. proven bound of strlen(source)), K13-paxlen (PAX record length is a fix-point over its own digits), K12-layer option agreement between next() and read_link() when the hard-link filter is below the rewriting layer.",
   note="trusted: K7 exception table; the list of header-writing helpers in sa/props/c04.py",
   technique="static analysis: dominance / must-precede, return-source classification and provenance rules on LLVM IR"),
  "C11": dict(
